@@ -10,16 +10,7 @@ from ..pm import U
 from . import common as C
 
 EXPLANATION = (
-    "Static analysis of KernelDG.check_for_loopcarried_dep, KernelDG._extend_path and the two "
-    "front-end consumers. R1: the second copy's renumbering, both path-search targets and the "
-    "inverse map use the same offset variable in the same affine form; R2: the offset's defining "
-    "expression is normalised to max(c, M)+k / max(c, M+k) / M+k with M = max over the kernel's "
-    "line numbers and k >= 1 is required (copy test false on every original node id, incl. "
-    "M+0.1 load nodes); R3: every kernel line is a search root; R4: the de-duplication key is "
-    "built from the sorted member list (sort dominates key construction, membership test "
-    "precedes insertion); R5: every edge contributes its latency once to members and sum; R6: "
-    "result list sorted before the dict is built; R7: text and dict select the maximum-latency "
-    "cycle by the same expression with default 0.0."
+    "Static analysis of KernelDG.check_for_loopcarried_dep, KernelDG._extend_path and the two front-end consumers. R1: the second copy's renumbering, both path-search targets and the inverse map use the same offset variable in the same affine form; R2: the offset's defining expression is normalised to max(c, M)+k / max(c, M+k) / M+k with M = max over the kernel's line numbers and k >= 1 is required (copy test false on every original node id, incl. M+0.1 load nodes); R3: every kernel line is a search root: the root loops iterate the whole kernel / the whole slice, no iteration can return to the loop head without performing the search (CFG), and a depth bound (cutoff), if any, is at least the kernel length or the graph's node count - never a worker's slice length; R4: the de-duplication key is built from the sorted member list (sort dominates key construction, membership test precedes insertion) and the member list that is kept is in that sorted order too; R5: every edge contributes its latency once to members and sum; R6: result list sorted before the dict is built; R7: text and dict select the maximum-latency cycle by the same expression with default 0.0."
 )
 NOT_DECIDED = (
     "Completeness/soundness of the reported set against an independent cycle enumerator on "
@@ -91,6 +82,64 @@ def separation_margin(expr, kernel_names):
         if len(expr.args) == 1:
             return separation_margin(expr.args[0], kernel_names)
     return None, "unrecognised shape: " + U(expr)
+
+
+def roots_and_depth(ctx, rule, f, ext, seq_calls, ext_calls, kernel_names):
+    """Shared by C05-R3 and C16-R2: no root is skipped, no depth bound below the longest possible cycle."""
+    # every iteration of a root loop performs the search (no root is skipped), and the search depth is not bounded below
+    # the longest possible cycle
+    for fi, calls in ((f, seq_calls), (ext, ext_calls)):
+        fcfg = C.cfg_of(fi)
+        for c in calls:
+            loop = C.root_loop(c)
+            if not isinstance(loop, ast.For):
+                continue
+            skip = fcfg.reachable(loop, loop, avoid=[c], within=loop)
+            ctx.check(not skip, rule, "no root is skipped: every iteration of the root loop performs the path search", fi.where(c),
+                      "an iteration of `for %s in %s` can return to the loop head without searching from that root: cycles that are "
+                      "only found from a skipped root (e.g. a second cycle through an instruction that already lies on one) are not "
+                      "reported" % (U(loop.target), U(loop.iter)), fi.qname, "search in every iteration: " + U(loop.iter))
+            cut = C.arg_of(c, 3, "cutoff")
+            if cut is None:
+                ctx.node_ok(rule, fi, c, "search depth unbounded (no cutoff)")
+                continue
+            g = U(c.args[0]) if c.args else "?"
+            enough = {"len(%s)" % g, "%s.number_of_nodes()" % g, "len(%s.nodes)" % g, "len(%s.nodes())" % g, "%s.order()" % g}
+            aff = C.affine(cut)
+            terms = {k: v for k, v in aff.items() if k != 1}
+            verdict = None
+            if len(terms) == 1 and aff.get(1, 0) >= 0:
+                (t, co), = terms.items()
+                whole = {"len(%s)" % k for k in kernel_names} if fi is f else set()
+                if fi is f:
+                    whole |= {a.targets[0].id for a in ast.walk(f.node) if isinstance(a, ast.Assign) and isinstance(a.targets[0], ast.Name)
+                              and U(a.value) in whole}
+                if t in enough and co >= 1:
+                    verdict = True
+                elif t in whole:
+                    verdict = co >= 1       # nodes on a path root -> root + offset are kernel lines (load stages have no
+                                            # incoming edge, C04-R2), each at most once: at most len(kernel) edges
+                elif fi is ext and any(t == "len(%s)" % prm for prm in ext.params()):
+                    verdict = False         # a worker parameter: the slice of roots, not the kernel
+                else:
+                    # a local: expand once
+                    ds = [a for a in C.assigns_to(fi.node, t)] if t.isidentifier() else []
+                    if len(ds) == 1 and isinstance(ds[0], ast.Assign):
+                        t2 = U(ds[0].value)
+                        if t2 in enough and co >= 1:
+                            verdict = True
+                        elif fi is ext and any(t2 == "len(%s)" % prm for prm in ext.params()):
+                            verdict = False
+                        elif t2 in whole:
+                            verdict = co >= 1
+            if verdict is None:
+                ctx.broken("R3: search depth bound `%s` is not understood (neither the graph's node count nor a multiple of the kernel length)" % U(cut))
+            ctx.check(verdict, rule, "search depth bound >= longest possible simple path", fi.where(c),
+                      "the search depth is bounded by `%s`, which can be smaller than a cycle (a cycle may visit every line of the "
+                      "kernel)%s; longer cycles are silently dropped" % (
+                          U(cut), ": in the worker this is the length of its slice of roots, not of the kernel" if fi is ext
+                          else ""), fi.qname, "search depth bound")
+
 
 
 def run(ctx):
@@ -230,6 +279,8 @@ def run(ctx):
             ctx.node_bad("R3", ext, loop if loop is not None else c,
                          "the worker does not use every line of its slice as a root")
 
+    roots_and_depth(ctx, "R3", f, ext, seq_calls, ext_calls, kernel_names)
+
     # parallel branch: the roots are partitioned over the workers (premises of the partition lemma, shared with C16-R1)
     from . import c16
     from .. import report as _report
@@ -253,21 +304,40 @@ def run(ctx):
     ctx.floor("R4", "de-duplication set insertions", len(adds), 1)
     for n, b in adds:
         key = b["M_key"]
-        kb = pm.match("tuple(M_l)", key)
+        if isinstance(key, ast.Name):
+            kd = [a for a in C.assigns_to(f.node, key.id) if isinstance(a, ast.Assign)]
+            if len(kd) == 1 and cfg.dominates(kd[0], n) and C.enclosing_loop(kd[0]) is C.enclosing_loop(n):
+                key = kd[0].value
+        kb = pm.match("tuple(sorted(M_l))", key)
+        key_sorted = kb is not None
+        kb = kb or pm.match("tuple(M_l)", key)
         lst = U(kb["M_l"]) if kb else None
         if lst is None:
-            ctx.node_bad("R4", f, n, "de-duplication key is not tuple(<member list>)")
+            ctx.node_bad("R4", f, n, "de-duplication key `%s` is not tuple(<sorted member list>)" % U(key))
             continue
         sorts = [s for s, _ in pm.find_any(["%s.sort()" % lst, "%s = sorted(%s)" % (lst, lst)], f.node)]
         dom = [s for s in sorts if cfg.dominates(s, n) and C.enclosing_loop(s) is C.enclosing_loop(n)]
-        if not dom:
+        if not dom and not key_sorted:
             ctx.node_bad("R4", f, n, "the member list %s is not sorted (in the same iteration) before "
                          "the key %s is built: rotations of one cycle get different keys" % (lst, U(key)))
             continue
+        # the member list that is *kept* for a cycle must be in canonical (sorted) order too: which rotation arrives first
+        # depends on the root order / worker completion order
+        keeps = [k for k, kbn in pm.find("M_r.append((M_s, M_l2))", f.node) if C.enclosing_loop(k) is C.enclosing_loop(n)
+                 and U(kbn["M_l2"]) in (lst, "sorted(%s)" % lst)]
+        for k in keeps:
+            stored_sorted = U(pm.match("M_r.append((M_s, M_l2))", k)["M_l2"]) == "sorted(%s)" % lst or any(
+                cfg.dominates(sd, k) for sd in dom)
+            ctx.check(stored_sorted, "R4", "the member list kept for a cycle is in sorted order", f.where(k),
+                      "the key is canonical but the member list stored for the cycle (`%s`) is left in path order: root, dict key "
+                      "and member order of the reported cycle are those of whichever rotation is processed first" % U(k),
+                      f.qname, "stored member list sorted")
+        if not dom:
+            dom = [cfg.node_of(kb["M_l"])]
         # nothing appended after the sort
         late = [a for a, _ in pm.find("%s.append(M__)" % lst, f.node)
                 if cfg.reachable(dom[0], a, avoid=[C.enclosing_loop(n)]) and cfg.dominates(dom[0], a)]
-        tests = [t for t, _ in pm.find("%s in %s" % (U(key), U(b["M_set"])), f.node)]
+        tests = [t for t, _ in pm.find("%s in %s" % (U(b["M_key"]), U(b["M_set"])), f.node)]
         tests = [t for t in tests if cfg.dominates(dom[0], t)]
         good = not late and bool(tests)
         # the membership test must lead to skipping the path
